@@ -60,10 +60,12 @@ func commitStoreTransactions(r *an.Run) {
 			{"Delete(commitDiffKey)", del("commitDiffKey")},
 			{"putRevocationLog", call("channeldb.putRevocationLog")},
 			{"AddFwdPkg", call("channeldb.ChannelPackager.AddFwdPkg")},
-		}, legacy: []w{
-			{"Put(unsignedAckedUpdatesKey)", put("unsignedAckedUpdatesKey")},
+			// our updates the peer still has to sign are stored on every
+			// successful path, also while unsignedAckedUpdatesKey does not
+			// exist yet (before our first revocation): see known_findings
+			// "fixed" and DESIGN.md section 9
 			{"Put(remoteUnsignedLocalUpdatesKey)", put("remoteUnsignedLocalUpdatesKey")},
-		}, legacyGet: "unsignedAckedUpdatesKey"},
+		}},
 	}
 	r.Obl("one-transaction-complete-write-set", "PATH",
 		"each state transition of the store runs exactly one kvdb.Update; inside its closure every required durable write is on every nil-error return and is reachable only below !isBorked; writes the legacy early return may skip are required on every other success return",
